@@ -573,7 +573,54 @@ func edgeFactMatches(from *ssa.BasicBlock, k int, m FactM, depth int) bool {
 			return true
 		}
 	}
+	if phiOutcomeOnlyThrough(f, m) {
+		return true
+	}
 	return predicateOnlyThrough(f, m, depth)
+}
+
+// phiOutcomeOnlyThrough: f tests a boolean assembled by && / || (a phi); it matches m when every
+// incoming definition that can yield the tested outcome does so under a fact matching m — the
+// branch that selected a constant, or the definition's own outcome.
+func phiOutcomeOnlyThrough(f Fact, m FactM) bool {
+	if f.Op != "==" || f.R == nil || f.R.Op != "const" || (f.R.Name != "true" && f.R.Name != "false") || f.L == nil || f.L.Op != "phi" {
+		return false
+	}
+	phi, ok := f.L.V.(*ssa.Phi)
+	if !ok || !isBoolType(phi.Type()) {
+		return false
+	}
+	want := f.R.Name == "true"
+	ff := FactsFor(phi.Parent())
+	n := 0
+	for i, e := range phi.Edges {
+		if k, isC := e.(*ssa.Const); isC && (constText(k) == "true") != want {
+			continue
+		}
+		n++
+		hit := false
+		if _, isC := e.(*ssa.Const); !isC {
+			ef := FactOf(e, want)
+			if m(ef) {
+				hit = true
+			}
+			for _, x := range impliedByPredicate(ef, 1) {
+				if m(x) {
+					hit = true
+				}
+			}
+		}
+		pred := phi.Block().Preds[i]
+		for _, x := range ff.edges {
+			if x.from == pred && pred.Succs[x.succ] == phi.Block() && m(x.fact) {
+				hit = true
+			}
+		}
+		if !hit {
+			return false
+		}
+	}
+	return n > 0
 }
 
 // predicateOnlyThrough: f says a repository predicate returned true (false); report whether the
@@ -1127,4 +1174,62 @@ func TermUp(v ssa.Value, in *ssa.Function) *Term {
 		fn = theProgram.Callers(fn)[0].Caller
 	}
 	return t
+}
+
+// ValueIs reports whether v satisfies m, looking through calls of repository functions: a call
+// satisfies m when every value the callee can return (at that result index) does. A value that
+// is produced by an extracted helper is thereby judged like the expression it replaced.
+func ValueIs(v ssa.Value, m M) bool { return valueIs(v, m, 0) }
+
+func valueIs(v ssa.Value, m M, depth int) bool {
+	v = Forwarded(v)
+	t := TermOf(v)
+	if m(t) || t.Any(m) {
+		return true
+	}
+	if depth > 2 {
+		return false
+	}
+	var call *ssa.Call
+	idx := 0
+	switch x := v.(type) {
+	case *ssa.Call:
+		call = x
+	case *ssa.Extract:
+		if c, ok := x.Tuple.(*ssa.Call); ok {
+			call, idx = c, x.Index
+		}
+	case *ssa.MakeInterface:
+		return valueIs(x.X, m, depth)
+	case *ssa.Phi:
+		for _, e := range x.Edges {
+			if !valueIs(e, m, depth+1) {
+				return false
+			}
+		}
+		return len(x.Edges) > 0
+	}
+	if call == nil {
+		return false
+	}
+	g := call.Call.StaticCallee()
+	if g == nil || g.Blocks == nil || g.Pkg == nil || !strings.HasPrefix(g.Pkg.Pkg.Path(), ModPath) {
+		return false
+	}
+	n := 0
+	for _, b := range g.Blocks {
+		for _, in := range b.Instrs {
+			ret, ok := in.(*ssa.Return)
+			if !ok || len(ret.Results) <= idx {
+				continue
+			}
+			for _, lf := range Leaves(Forwarded(ret.Results[idx]), ret.Block()) {
+				n++
+				if !valueIs(lf.V, m, depth+1) {
+					return false
+				}
+			}
+		}
+	}
+	return n > 0
 }
